@@ -34,8 +34,13 @@ def strategy():
         st.just({"c": "append"}),
         st.builds(lambda a: {"c": "uidfetch", "i": a}, st.integers(1, NMSG)),
         st.just({"c": "fetchall"}),
+        # a non-PEEK body fetch of the messages planted at set-up (sets \Seen, rewrites .mh_sequences when done)
+        st.just({"c": "fetchbody"}), st.just({"c": "fetchbody"}),
+        # a STORE by sequence number with a fresh marker keyword: which message did the number denote?
+        st.builds(lambda a, sil: {"c": "storeseq", "i": a, "silent": sil}, st.integers(1, NMSG), st.booleans()),
+        st.builds(lambda a, sil: {"c": "storeseq", "i": a, "silent": sil}, st.integers(1, NMSG), st.booleans()),
     )
-    return st.fixed_dictionaries(
+    general = st.fixed_dictionaries(
         {
             "kind": st.just("concurrent"),
             "rseed": st.integers(0, 2**16),
@@ -43,8 +48,31 @@ def strategy():
             "sessions": st.lists(st.lists(cmd, min_size=1, max_size=4), min_size=2, max_size=3),
             "offsets": st.lists(st.integers(0, 6), min_size=3, max_size=3),
             "sched": st.lists(st.integers(0, 4), min_size=0, max_size=60),
+            # an MH agent delivering into the mailbox while the commands are in flight: [offset, how many] ...
+            "deliveries": st.lists(st.tuples(st.integers(0, 12), st.integers(1, 2)), min_size=0, max_size=2),
+            "slow": st.booleans(),
         }
     )
+
+    # a focused shape inside the same domain: one session expunges low-numbered messages while another
+    # session's command addresses a higher one and an MH agent delivers as many messages as are expunged
+    # (the message count is the same before and after; seeded/C03-3 keyed a shortcut on exactly that)
+    @st.composite
+    def focused(draw):
+        dele = draw(st.lists(st.integers(1, 3), min_size=1, max_size=2, unique=True))
+        hi = draw(st.integers(max(dele) + 1, NMSG))
+        second = draw(st.sampled_from([{"c": "uidfetch", "i": hi}, {"c": "delflag", "i": hi, "uid": True}, {"c": "storeseq", "i": hi, "silent": True}, {"c": "uidfetch", "i": hi}]))
+        first = draw(st.sampled_from([{"c": "expunge"}, {"c": "uidexpunge", "set": [1, 3]}]))
+        return {
+            "kind": "concurrent", "rseed": draw(st.integers(0, 2**16)), "deleted": dele,
+            "sessions": [[first], [second] + draw(st.lists(cmd, max_size=1))],
+            "offsets": [draw(st.integers(0, 3)), draw(st.integers(0, 3)), 0],
+            "sched": draw(st.lists(st.integers(0, 4), min_size=0, max_size=30)),
+            "deliveries": [(draw(st.integers(0, 7)), len(dele))],
+            "slow": draw(st.booleans()),
+        }
+
+    return st.one_of(general, general, focused())
 
 
 class View:
@@ -111,20 +139,26 @@ class View:
                     self.v("C01.fetch.wrong-cell", f"session {self.name}: '* {x.num} FETCH (UID {u})' but cell {x.num} of its replayed view {self.cells} is uid {cur}", "fetch")
 
 
-def execute(trace) -> CaseResult:
+def execute(trace, prop: str = "C01") -> CaseResult:
+    """prop: the property on whose behalf the mode runs (C01: views; C03: a UID names the same message)."""
     res = CaseResult()
     viol = []
     seen = set()
 
     def v(clause, detail, sig=""):
+        if not clause.startswith(prop + "."):
+            return  # the other properties' clauses are not this check's business
         if (clause, sig) not in seen:
             seen.add((clause, sig))
-            viol.append(Violation(ID, clause, detail, trace, "conc:" + sig))
+            viol.append(Violation(prop, clause, detail, trace, "conc:" + sig))
+
+    tag_of = {}  # uid -> tag for the messages planted at set-up (uids 1..NMSG)
 
     sched = ScheduleSource(trace.get("rseed", 0), delays=DELAYS_MIX, choices=trace.get("sched", []))
     w = World(rseed=trace.get("rseed", 0))
     names = ["a", "b", "c"][: len(trace["sessions"])]
     overlap = [False]
+    nmark = [0]
     inflight = {}
     transcript = []
 
@@ -152,7 +186,17 @@ def execute(trace) -> CaseResult:
                 m = tagged_message("cc%d" % len(transcript))
                 line = b"APPEND mb {%d}\r\n%s" % (len(m), m)
             elif c == "uidfetch":
-                line = b"UID FETCH %d (UID FLAGS)" % cmd["i"]
+                line = b"UID FETCH %d (UID FLAGS BODY.PEEK[HEADER.FIELDS (X-VF-Tag)])" % cmd["i"]
+            elif c == "fetchbody":
+                line = b"UID FETCH 1:%d (UID BODY[TEXT])" % NMSG
+            elif c == "storeseq":
+                # the session's view at the moment the command is sent (no EXPUNGE can reach it during a
+                # non-UID STORE, so this is the view the number is interpreted in)
+                view.catch_up(s, len(s.writer.buf))
+                snapshot = list(view.cells)
+                nmark[0] += 1
+                marker = b"mk%d%s" % (nmark[0], n.encode())
+                line = b"STORE %d +FLAGS%s (%s)" % (cmd["i"], b".SILENT" if cmd["silent"] else b"", marker)
             else:
                 line = b"FETCH 1:* (UID)"
             mut = c in ("expunge", "uidexpunge", "move")
@@ -166,7 +210,35 @@ def execute(trace) -> CaseResult:
                 res.blocked = "C06"
                 return
             # a FETCH 1:* that was refused (pending expunges) is fine; replay whatever came
-            view.catch_up(s, r.end, own_cmd="fetchall" if c == "fetchall" else None, own_start=r.start)
+            view.catch_up(s, r.end, own_cmd="fetchall" if c in ("fetchall", "storeseq") else None, own_start=r.start)
+            if c == "uidfetch" and r.ok:
+                import re as _re
+
+                for seq, items in r.fetches():
+                    h = items.get("BODY[HEADER.FIELDS (X-VF-TAG)]")
+                    if h is None or "UID" not in items:
+                        continue
+                    mt = _re.search(rb"X-VF-Tag:\s*(\S+)", bytes(h), _re.I)
+                    u = int(items["UID"])
+                    if u != cmd["i"]:
+                        v("C03.uid.other-message", f"session {n}: 'UID FETCH {cmd['i']}' answered with UID {u}", "uidfetch")
+                    elif mt and u in tag_of and mt.group(1).decode() != tag_of[u]:
+                        v("C03.uid.other-message", f"session {n}: 'UID FETCH {u}' returned the content of {mt.group(1).decode()}; uid {u} is {tag_of[u]}", "uidfetch")
+            if c == "storeseq" and r.ok and s.alive:
+                r2 = await s.cmd(b"UID SEARCH KEYWORD " + marker, limit=150)
+                view.catch_up(s, r2.end)
+                from .. import wire as _w
+
+                got = set()
+                for x in r2.untagged("SEARCH"):
+                    got.update(_w.search_nums(x))
+                want = snapshot[cmd["i"] - 1] if cmd["i"] <= len(snapshot) else None
+                if got and want is not None and got != {want}:
+                    v("C01.store.wrong-message", f"session {n}: 'STORE {cmd['i']} +FLAGS{'.SILENT' if cmd['silent'] else ''}' was accepted; cell {cmd['i']} of its view {snapshot} is uid {want}, the flag landed on uids {sorted(got)}", "store")
+                elif got and want is None and cmd["i"] > len(snapshot) and cmd["i"] > len(view.cells):
+                    # (a number beyond the view at send time is fine if the EXISTS that arrived with the
+                    #  reply made it valid: the server resolves the number when it executes the command)
+                    v("C01.store.out-of-view", f"session {n}: 'STORE {cmd['i']}' accepted although its view holds {len(view.cells)} messages; flag landed on {sorted(got)}", "store")
 
     async def main():
         import asyncio
@@ -177,6 +249,7 @@ def execute(trace) -> CaseResult:
         await o.cmd(b"CREATE other")
         for i in range(NMSG):
             m = tagged_message(f"c{i + 1}")
+            tag_of[i + 1] = f"c{i + 1}"
             fl = b" (\\Deleted)" if (i + 1) in trace["deleted"] else b""
             await o.cmd(b"APPEND mb" + fl + b" {%d}\r\n%s" % (len(m), m))
         sess = {}
@@ -191,7 +264,17 @@ def execute(trace) -> CaseResult:
         for n in names:
             inflight[n] = None
         w.loop.sched = sched
+        if trace.get("slow"):
+            for n_ in names:
+                sess[n_][0].writer.slow = sched.next  # clients that read slowly: drain() is a scheduled completion too
         tasks = [asyncio.ensure_future(run_session(n, sess[n][0], sess[n][1], trace["sessions"][i], trace["offsets"][i])) for i, n in enumerate(names)]
+
+        async def deliver_later(off, k, idx):
+            await asyncio.sleep(off * 0.002)
+            w.deliver("mb", [tagged_message(f"dl{idx}x{j}") for j in range(k)])
+            res.labels.append("delivery-in-flight")
+
+        tasks += [asyncio.ensure_future(deliver_later(off, k, idx)) for idx, (off, k) in enumerate(trace.get("deliveries", []))]
         done, pending = await asyncio.wait(tasks, timeout=400)
         for t in pending:
             t.cancel()
@@ -220,8 +303,35 @@ def execute(trace) -> CaseResult:
             else:
                 v("C01.sync.refused", f"session {n}: FETCH 1:* after two NOOPs answered {r.status} although its view holds {len(view.cells)} messages", "sync")
 
+    async def c13_end():
+        # C13: a message an MH agent delivered (in `unseen`) while commands were in flight, and that no
+        # command could have fetched (non-PEEK fetches address uids 1..NMSG only), is still unseen - for
+        # IMAP and in the folder's .mh_sequences
+        if prop != "C13" or not trace.get("deliveries"):
+            return
+        import re as _re
+
+        await w.settle(25)
+        o = w.session("o9")
+        r = await o.cmd(b"EXAMINE mb")
+        if not r.ok:
+            return
+        r = await o.cmd(b"FETCH 1:* (UID FLAGS BODY.PEEK[HEADER.FIELDS (X-VF-Tag)])")
+        seqs = w.raw_sequences("mb")
+        files = w.folder_files("mb") if hasattr(w, "folder_files") else None
+        for seq, items in r.fetches():
+            h = items.get("BODY[HEADER.FIELDS (X-VF-TAG)]")
+            mt = _re.search(rb"X-VF-Tag:\s*(dl\S+)", bytes(h or b""), _re.I)
+            if not mt:
+                continue
+            fl = {str(f) for f in (items.get("FLAGS") or [])}
+            if "\\Seen" in fl:
+                v("C13.deliver.flags", f"message {mt.group(1).decode()} was delivered unseen while commands were in flight and never fetched; IMAP shows {sorted(fl)}; .mh_sequences unseen={sorted(seqs.get('unseen', []))} Seen={sorted(seqs.get('Seen', []))}", "deliver")
+
     try:
         w.run(main(), budget=1_500_000)
+        if res.blocked is None:
+            w.run(c13_end(), budget=500_000)
     except Hang as e:
         res.blocked = "C10"
         res.labels.append(f"hang:{str(e)[:40]}")
